@@ -102,8 +102,15 @@ def w_vacancy(arg):
             lo = np.linalg.eigvalsh(0.5 * (Lss + Lss.T)).min(); hi = np.linalg.eigvalsh(0.5 * ((L0 - Lss) + (L0 - Lss).T)).min()
             acc.check(lo >= -max(tol, 1e-7) * sc and hi >= -max(tol, 1e-7) * sc, 'solute-coefficient-between-zero-and-bare-vacancy',
                       '%s: min eig Lss %.4g, min eig (L0vv-Lss) %.4g, scale %.3g' % (tag, lo, hi, sc), sig=(k, 'between'), signature='between|%s' % cid)
+            # the caller converts units in place (the docstring says the results need multiplying by cv/kBT): the identities must survive
+            for T in (L0, Lss, Lsv, L1): T *= 3.0
+            L0b, Lssb, Lsvb, L1b = L(d, t)
+            acc.check(np.abs(Lsvb + L0b).max() <= tol * sc and np.abs(L0b - L0 / 3.0).max() <= 1e-12 * sc, 'identities-survive-in-place-edits-of-earlier-results',
+                      '%s: after scaling the returned arrays in place, L0vv changed by %.2e' % (tag, np.abs(L0b - L0 / 3.0).max() / sc), sig=(k, 'inplace'))
         if which == 'C08':
             t = data(d, rng)
+            if k % 2 == 1 and len(t['eneT2']) >= 2:
+                t['eneT2'] = t['eneT2'].copy(); t['eneT2'][0] -= 2.5       # exchange classes with rates an order of magnitude apart
             ref10 = None
             for s_ in (1e-3, 1., 1e3, 1e6, 1e8, 1e10, 1e12, 1e14, 1e15, 1e16):
                 ts = dict(t, preT2=t['preT2'] * s_)
@@ -113,7 +120,7 @@ def w_vacancy(arg):
                 if s_ <= 1e6:
                     La, Lb = L(d, ts, large_om2=0), L(d, ts, large_om2=np.inf)
                     worst = max(np.abs(a - b).max() for a, b in zip(La, Lb)) / sc
-                    acc.check(worst <= 1e-7, 'large-rate-algorithm-agrees-with-standard-algorithm', '%s scale %g: %.2e' % (tag, s_, worst), sig=(k, s_, 'agree'), signature='agree|%s' % cid)
+                    acc.check(worst <= 1e-7, 'large-rate-algorithm-agrees-with-standard-algorithm', '%s scale %g: %.2e' % (tag, s_, worst), sig=(k, s_, 'agree'), signature='agree|%s|%s' % (cid, 'below-1e-4' if worst < 1e-4 else 'above-1e-4'))
                 if s_ == 1e10: ref10 = Ld
                 if s_ >= 1e12 and ref10 is not None:
                     for nm, T, R in zip(NAMES, Ld, ref10):
